@@ -63,7 +63,7 @@ func coqStep(s *ObsStep, d *ids) string {
 func coqCase(name string, c *Case, o *Obs) string {
 	d := newIDs(c)
 	var sb strings.Builder
-	fmt.Fprintf(&sb, "Definition %s : icase := {|\n  k_flows := %s;\n", name, hx.List(c.Flows, func(f *Flow) string { return "\n   " + coqFlow(f, d) }))
+	fmt.Fprintf(&sb, "Definition %s : icase := {|\n  k_names := %s;\n  k_flows := %s;\n", name, coqNames(c), hx.List(c.Flows, func(f *Flow) string { return "\n   " + coqFlow(f, d) }))
 	insp := []string{}
 	for fi := range c.Flows {
 		if in := o.Inspections[fi]; in != nil {
@@ -92,6 +92,11 @@ func main() {
 		"manual or msg trigger and 0-5 resumes, executed on the real engine with stubbed services; a case is distinct by its whole "+
 		"canonical JSON; non-trivial = the execution saved >= 1 result or its events carried >= 1 asset reference written in the node")
 	r := hx.NewRand(o.Seed)
+	if err := discoverHomes(); err != nil {
+		fmt.Fprintln(os.Stderr, err)
+		os.Exit(2)
+	}
+	res.Notes = append(res.Notes, fmt.Sprintf("context homes found in the engine's own context: fields under %v, globals under %v", discoveredFieldHomes, discoveredGlobalHomes))
 
 	var cases []*Case
 	if o.Replay != "" {
